@@ -39,6 +39,57 @@ CLAIMS: dict = {
         technique='contract-based deductive verification: AST->VC symbolic execution of the real query functions + '
                   'SQL->FOL translation, obligations discharged by z3',
         engines=['pyvc', 'sqlvc']),
+    'C09': dict(
+        category='proof',
+        text='_find_helper proved equivalent (same query calls, same results) to the documented exact/normalized/'
+             'lemmatized procedure for every combination of entity class, form, generic lemmatizer proposals and '
+             'normalizer; the three find_* queries proved to return exactly the entities having a matching form '
+             '(form condition, rank = 0 unless search_all_forms, pos, scope); the storage rule of normalized_form '
+             'proved as row image of _insert_forms; z3 lemma linking the SQL condition to "f = q or normalize(f) = q".',
+        note='normalize_form and the lemmatizer are uninterpreted functions (A-UNI); the order-preserving de-duplication '
+             'loop is summarised by the engine (A-DEDUP) and cross-checked by bounded native execution of the extracted '
+             'loop; A-SQLITE. Morphy itself is C17; scoping of the forms join is C04 (K1).',
+        technique='contract-based deductive verification: flow equivalence by AST-level symbolic execution + SQL->FOL result '
+                  'characterisation, z3',
+        engines=['pyvc', 'sqlvc', 'bounded']),
+    'C10': dict(
+        category='proof',
+        text='Identity (__eq__/__hash__/__lt__ of the entity classes and Relation) proved by symbolic execution; data '
+             'flows of the navigation methods proved against sidecar contracts (prescribed query, scope, _wordnet '
+             'propagation); the membership queries proved exact and ordered by rank; referential lemmas (sense.word() '
+             'denotes senses.entry_rowid etc., inverse navigation, translate = synsets sharing the ILI, symmetry) proved '
+             'in z3 over those contracts.',
+        note='Known finding K2: Sense.word()/synset() resolve by identifier among all selected lexicons (fails with two '
+             'versions in scope) - reported as KNOWN-FINDING and re-proved under "identifiers unique across the scope". '
+             'Inferred (*INFERRED*) synsets are outside the statement (stored entities). A-SQLITE, A-ORDER-FIRST.',
+        technique='contract-based deductive verification: symbolic execution of the real methods + z3 lemmas over query '
+                  'contracts',
+        engines=['pyvc', 'sqlvc']),
+    'C11': dict(
+        category='proof',
+        text='The three relation queries proved to return exactly the declared relation rows (source, requested types '
+             'incl. none/*, relation and target in scope, name, lexicon specifier, metadata, target columns); storage '
+             'of relations proved as row images; _iter_* flows, Relation identity incl. dc:type proved; relation_map key '
+             'collisions decided in z3. relations()/get_related()/relation_map() and closure()/relation_paths() '
+             '(exactness, simple paths, termination) are checked by BOUNDED stand-ins on the real methods.',
+        note='Bounded (not proved): dict-accumulating views on all pair lists <= 3; closure/relation_paths on all '
+             'digraphs <= 4 nodes; termination beyond the bound rests on A-MATH. Known finding K10 (relation_map loses a '
+             'target when two scope synsets share the ILI). Fixed finding F4 (get_related_synsets() without types).',
+        technique='contract-based deductive verification (SQL->FOL + flows, z3) with bounded stand-ins for the worklist '
+                  'loops',
+        engines=['pyvc', 'sqlvc', 'bounded']),
+    'C12': dict(
+        category='proof',
+        text='_iter_relations / _iter_expanded_relations proved equivalent to the documented ILI mapping (sources = '
+             'every expand synset sharing the ILI except the synset itself; one result per scope synset carrying the '
+             'target ILI else one placeholder with that ILI and the own lexicon; targets without ILI dropped; relation '
+             'keeps the expand lexicon\'s ids); Wordnet.__init__ proved against the documented default-mode / expand / '
+             'dependency / warning rules for all argument shapes; the queries involved proved exact; dependency links '
+             '(provider_rowid) proved as row image + UPDATE condition of _insert_lexicon.',
+        note='find_lexicons (specifier resolution) enters by contract here and is C08. A-SQLITE. K10 (relation_map) is '
+             'reported under C11.',
+        technique='contract-based deductive verification: flow equivalence by AST-level symbolic execution, SQL->FOL, z3',
+        engines=['pyvc', 'sqlvc']),
     'C05': dict(
         category='proof',
         text='Decomposition of the history property into per-operation obligations over the real DDL, SQL and '
